@@ -450,7 +450,7 @@ func (rw *rewriter) run() {
 		astutil.AddImport(rw.fset, rw.file, simosPath)
 	}
 	if rw.changed {
-		for _, imp := range []string{"time", "os", "reflect", "sync"} {
+		for _, imp := range []string{"time", "os", "reflect", "sync", "runtime"} {
 			if !rw.usesImport(imp) {
 				astutil.DeleteImport(rw.fset, rw.file, imp)
 			}
@@ -526,6 +526,12 @@ func (rw *rewriter) pre(c *astutil.Cursor) bool {
 			c.Replace(rw.rt(tn.Sel.Name))
 		} else if p == "reflect" && tn.Sel.Name == "Select" {
 			c.Replace(rw.rt("Select"))
+		} else if p == "runtime" && (tn.Sel.Name == "GOMAXPROCS" || tn.Sel.Name == "NumCPU") {
+			// R11: the number of processors is a knob of the simulation (the
+			// scheduler runs one task at a time; code that sizes a pool or a
+			// limit by it must work for 1..16)
+			c.Replace(rw.rt(tn.Sel.Name))
+			rw.stats["procs"]++
 		}
 	}
 	return true
@@ -684,6 +690,33 @@ func (rw *rewriter) post(c *astutil.Cursor) bool {
 				c.Replace(call(rw.rt("Close"), tn.Args[0]))
 			}
 			break
+		}
+		if sel, isSel := tn.Fun.(*ast.SelectorExpr); isSel && len(tn.Args) == 0 {
+			// condition variables (added after seeded change C17-l1, whose
+			// sync.Cond the simulator did not own: the run hung and the
+			// check ended with exit 2)
+			if sl := rw.info.Selections[sel]; sl != nil {
+				if fn, isFn := sl.Obj().(*types.Func); isFn {
+					recv := sel.X
+					if _, isPtr := rw.info.TypeOf(recv).(*types.Pointer); !isPtr {
+						recv = &ast.UnaryExpr{Op: token.AND, X: recv}
+					}
+					switch fn.FullName() {
+					case "(*sync.Cond).Wait":
+						c.Replace(call(rw.rt("CondWait"), recv, rw.site(tn)))
+						rw.stats["cond"]++
+						return true
+					case "(*sync.Cond).Signal":
+						c.Replace(call(rw.rt("CondSignal"), recv))
+						rw.stats["cond"]++
+						return true
+					case "(*sync.Cond).Broadcast":
+						c.Replace(call(rw.rt("CondBroadcast"), recv))
+						rw.stats["cond"]++
+						return true
+					}
+				}
+			}
 		}
 		if recv, m, ok := rw.lockCall(tn); ok {
 			switch m {
